@@ -2,9 +2,104 @@
 import random
 import re
 
+import concurrent.futures as cf
+import json
+import os
+
 from .. import tlc, tracecheck
-from ..common import Check, MachineryError
+from ..common import Check, MachineryError, NCPU
 from ..harness import e2e
+from ..harness.servercheck import _extract_diag
+
+MODE = {'poll': 'polling', 'both': 'upgrade', 'ws': 'websocket'}
+SYS_INVS = ['TypeOK', 'InOrderOnce', 'NoLoss', 'NoSpontaneousEnd', 'BothSeeDisconnect',
+            'TransportAgreed']
+
+
+def sys_consts(mode, **kw):
+    c = dict(MaxMsg=2, MaxPing=1, CBatch=2, SLimit=2, SBatch=2, CLimit=2, Mode='"%s"' % mode,
+             CountPings='TRUE', AllowDisc='{"client", "server"}')
+    c.update(kw)
+    return c
+
+
+def trace_consts(mode):
+    # the code's numbers: 16 packets per POST / per poll response, decoders accept 16
+    return dict(MaxMsg=100000, MaxPing=0, CBatch=16, SLimit=16, SBatch=16, CLimit=16,
+                Mode='"%s"' % mode, CountPings='FALSE', AllowDisc='{"client", "server"}')
+
+
+def system_models(ck, th):
+    """EioSystem: the protocol between one client and one server implements the contract."""
+    jobs = []
+    big = 3 if th else 2
+    for mode in ('polling', 'upgrade', 'websocket'):
+        jobs.append(dict(name='EioSystem %s, either side may disconnect: invariants + refinement '
+                              'of EioE2E' % mode, spec='Spec',
+                         consts=sys_consts(mode, MaxMsg=big, MaxPing=1),
+                         invariants=SYS_INVS, properties=['ImplementsE2E'], constraints=['Bound']))
+        jobs.append(dict(name='EioSystem %s, nobody disconnects: no loss, no spontaneous end, '
+                              'batches larger than one payload' % mode, spec='Spec',
+                         consts=sys_consts(mode, MaxMsg=4 if th else 3, MaxPing=2, AllowDisc='{}'),
+                         invariants=SYS_INVS, properties=['ImplementsE2E'], constraints=['Bound']))
+        jobs.append(dict(name='EioSystem %s, liveness under fair protocol steps: every message '
+                              'sent on a connection that stays up is delivered' % mode,
+                         spec='FairSpec', consts=sys_consts(mode), properties=['EventuallyDelivered']))
+    # negative controls: the defects F2 / F2b at design level
+    jobs.append(dict(name='negative control: client batch (3) above the server decoder limit (2)',
+                     spec='Spec', consts=sys_consts('polling', MaxMsg=3, CBatch=3, AllowDisc='{}'),
+                     invariants=SYS_INVS, constraints=['Bound'], expect='NoSpontaneousEnd'))
+    jobs.append(dict(name='negative control: server poll batch (3) above the client decoder limit (2)',
+                     spec='Spec', consts=sys_consts('polling', MaxMsg=3, SBatch=3, AllowDisc='{}'),
+                     invariants=SYS_INVS, constraints=['Bound'], expect='NoSpontaneousEnd'))
+
+    def one(j):
+        cfg = tlc.cfg_text(spec=j['spec'], constants=j['consts'],
+                           invariants=j.get('invariants', ()), properties=j.get('properties', ()),
+                           constraints=j.get('constraints', ()))
+        return j, tlc.run('EioSystem', cfg, workers=4, timeout=1500, constants=j['consts'])
+    with cf.ThreadPoolExecutor(max_workers=4) as ex:
+        for j, r in ex.map(one, jobs):
+            if r.error:
+                raise MachineryError('TLC job %s failed: %s\n%s' % (j['name'], r.error,
+                                                                     r.out[-2500:]))
+            ck.add_tlc(r, j['name'])
+            if j.get('expect'):
+                if r.violated != j['expect']:
+                    raise MachineryError('negative control %s: expected %s violated, got %r' % (
+                        j['name'], j['expect'], r.violated))
+                ck.cov.setdefault('negative_controls', []).append(
+                    '%s: %s violated as expected' % (j['name'], j['expect']))
+            elif r.violated:
+                ck.violation('EioSystem: %s violated (%s)' % (r.violated, j['name']),
+                             {'job': j['name'], 'constants': j['consts'],
+                              'counterexample': '\n'.join(r.trace)[-8000:] or r.out[-4000:]})
+            elif r.distinct < 1000:
+                raise MachineryError('vacuity: %s has only %d states' % (j['name'], r.distinct))
+
+
+def diagnose_sys(trace, mode):
+    """Re-run one rejected conversation printing every reached state: where the model could
+    not follow."""
+    wd = tlc.workdir('diag-')
+    path = os.path.join(wd, 'one.json')
+    with open(path, 'w') as f:
+        json.dump([trace], f)
+    consts = trace_consts(mode)
+    cfgtxt = tlc.cfg_text(spec='TraceSpec', constants=consts, constraints=['DiagPrint'])
+    r = tlc.run('EioSystemTrace', cfgtxt, wd=wd, workers=1, env={'TRACE_FILE': path},
+                constants=consts)
+    states = [x for x in _extract_diag(r.out) if isinstance(x[1], int) and x[1] > 0]
+    if not states:
+        return {'error': r.out[-1500:]}
+    far = max((x[1], x[2], x[3]) for x in states)
+    li, j, b = far
+    st = trace[li - 1] if li - 1 < len(trace) else None
+    cands = [x for x in states if (x[1], x[2], x[3]) == far][:6]
+    return {'step': li - 1, 'op': st and st['op'], 'events_matched': j - 1, 'calls_done': b,
+            'next_event': (st['ev'][j - 1] if st and j - 1 < len(st['ev']) else None),
+            'observed_end': st and {k: st[k] for k in ('cup', 'sup', 'ctr', 'str', 'settled')},
+            'model_states': cands}
 
 
 def to_trace(steps):
@@ -95,6 +190,7 @@ def run(tier):
     ck.add_tlc(r, 'the end-to-end contract itself (MaxMsg = 3): its invariants over all behaviours')
     if r.violated:
         ck.violation('EioE2E: %s violated' % r.violated, {'tlc': r.out[-3000:]})
+    system_models(ck, th)
     seed = ck.seed
     traces, metas = [], []
     hb = [(16, 8), (8, 8)] if not th else [(16, 8), (8, 8), (4, 8), (40, 12)]
@@ -141,6 +237,36 @@ def run(tier):
         ck.violation('conversation violates the end-to-end contract (%s, transports=%s, '
                      'heartbeat=%s): %s' % (metas[i]['pair'], metas[i]['transports'], metas[i]['hb'], why),
                      {'meta': metas[i], 'trace': traces[i], 'kind': 'e2e'})
+    # the same conversations against the protocol model EioSystem (code's batch sizes / limits)
+    nacc = 0
+    for mode_key, mode in MODE.items():
+        idx = [i for i, m_ in enumerate(metas) if m_['transports'] == mode_key]
+        if not idx:
+            continue
+        vs = tracecheck.validate('EioSystemTrace', [traces[i] for i in idx],
+                                 constants=trace_consts(mode), invariants=['TypeOK', 'InOrderOnce'],
+                                 batch=400)
+        ck.cov['states'] += vs.states
+        ck.cov['transitions'] += vs.generated
+        nacc += len(vs.accepted)
+        for k in vs.rejected[:3]:
+            i = idx[k]
+            d = diagnose_sys(traces[i], mode)
+            ck.violation('conversation is not a behaviour of the protocol model EioSystem (%s, '
+                         'transports=%s, heartbeat=%s): stuck in step %s (%s) after %s events, next '
+                         'recorded event %s' % (metas[i]['pair'], metas[i]['transports'],
+                                                metas[i]['hb'], d.get('step'), d.get('op'),
+                                                d.get('events_matched'), d.get('next_event')),
+                         {'meta': metas[i], 'trace': traces[i], 'kind': 'e2e', 'diagnosis': d})
+        for k, inv, txt in vs.inv_violations[:3]:
+            i = idx[k]
+            ck.violation('EioSystem invariant %s violated on a real conversation (%s)' % (
+                inv, metas[i]['pair']), {'meta': metas[i], 'trace': traces[i], 'kind': 'e2e',
+                                         'tlc': txt})
+    ck.add_conformance('the same conversations validated step by step against the protocol model '
+                       'EioSystem (CBatch = SLimit = SBatch = CLimit = 16): every application event '
+                       'in its recorded order, quiescence and transports at the end of each step',
+                       len(traces), nacc)
     for m_, b in blocked[:3]:
         ck.violation('client application call never returned: %r (%s)' % (b, m_['pair']),
                      {'meta': m_, 'kind': 'e2e'})
@@ -214,9 +340,15 @@ def replay(path):
                                         latency=m.get('latency', 0))
     tr = to_trace(steps)
     v = tracecheck.validate('EioE2ETrace', [tr], constants={'MaxMsg': 100000})
-    if v.accepted:
-        print('replay: conversation satisfies the contract')
+    mode = MODE[m['transports']]
+    vs = tracecheck.validate('EioSystemTrace', [tr], constants=trace_consts(mode),
+                             invariants=['TypeOK', 'InOrderOnce'])
+    if v.accepted and vs.accepted:
+        print('replay: conversation satisfies the contract and is a behaviour of EioSystem')
         return 0
-    print('replay: %s' % explain(tr))
+    if not v.accepted:
+        print('replay: %s' % explain(tr))
+    else:
+        print('replay: not a behaviour of EioSystem: %s' % json.dumps(diagnose_sys(tr, mode))[:3000])
     print('VIOLATION property=C10 replay=%s' % path)
     return 1
